@@ -34,9 +34,14 @@ def prerequisite_collection(ctx, o, ps: PassShape):
     S = ps.S
     pt = ps.prereq_term()
     if pt is None:
+        reads = _dependency_date_reads(ps)
+        if reads:
+            o.undecided(ps.f, reads[0], reads[0], f"the pass reads `{src(reads[0])}` of tasks other than the children, but no "
+                                                  f"`{ps.lat}([x.{ps.end_attr} for x in <dependencies> ...] + [bound])` term was recognised")
+            return None
         o.refute(ps.f, ps.f.node, 'prerequisite bound',
-                 f"no `{ps.lat}([x.{ps.end_attr} for x in <dependencies> ...] + [bound])` term found in the pass: the "
-                 f"{ps.rel} of the task do not bound it")
+                 f"no `{ps.lat}([x.{ps.end_attr} for x in <dependencies> ...] + [bound])` term found in the pass (the {ps.end_attr} of no "
+                 f"task but the children is ever read): the {ps.rel} of the task do not bound it")
         return None
     if pt['kind'] == 'flipped':
         o.refute(ps.f, pt['stmt'], pt['stmt'].value, f"dependency {ps.end_attr}s are combined with the wrong lattice operation "
@@ -80,6 +85,45 @@ def prerequisite_collection(ctx, o, ps: PassShape):
     return pt
 
 
+def _dependency_date_reads(ps):
+    """reads `<v>.<end_attr>` where v is bound by a comprehension / loop that does not range over the children of the task"""
+    out = []
+    binders = {}
+    for n in walk_no_nested(ps.f.node):
+        gens = []
+        if isinstance(n, (ast.ListComp, ast.GeneratorExp, ast.SetComp)):
+            gens = [(g.target, g.iter, n) for g in n.generators]
+        elif isinstance(n, ast.For):
+            gens = [(n.target, n.iter, n)]
+        for tgt, it, holder in gens:
+            if isinstance(tgt, ast.Name):
+                binders.setdefault(tgt.id, []).append((it, holder))
+    for n in walk_no_nested(ps.f.node):
+        if isinstance(n, ast.Attribute) and n.attr == ps.end_attr and isinstance(n.ctx, ast.Load) and isinstance(n.value, ast.Name) \
+                and n.value.id != ps.task:
+            its = [it for it, holder in binders.get(n.value.id, []) if any(x is n for x in ast.walk(holder))]
+            if not its:
+                out.append(n)
+                continue
+            for it in its:
+                at = ps.cfg.node_containing(it)
+                itx = ps.ex.expand(it, at) if at is not None else it
+                for _ in range(3):
+                    m = match("reversed($x)", itx) or match("list($x)", itx) or match("tuple($x)", itx)
+                    if m:
+                        itx = m['x']
+                if not match(f"{ps.task}.children", itx):
+                    out.append(n)
+    return out
+
+
+def _opaque(args, ps, pt):
+    """lattice operands the Expander could not resolve (locals with several definitions, calls of unknown helpers)"""
+    return [a for a in args if isinstance(a, ast.Name) and a.id not in (ps.bound, pt['name'] if pt else None)] + \
+           [a for a in args if isinstance(a, (ast.Subscript, ast.Starred)) or
+            (isinstance(a, ast.Call) and not _is_now(a) and not (isinstance(a.func, ast.Name) and a.func.id in ('datetime', 'timedelta', 'max', 'min')))]
+
+
 def recursion_order(ctx, o, ps: PassShape, pt):
     """every dependency in the collection is passed to the recursive pass before its end/start is read, and the
     collection is complete before the recursion starts"""
@@ -90,11 +134,35 @@ def recursion_order(ctx, o, ps: PassShape, pt):
     pe_node = ps.cfg.node_of(pt['stmt'])
     calls = ps.pass_calls()
     rec = None
+    other = []
+
+    def root_name(e):
+        """the collection an iterable stands for: order/duplicate changing wrappers and plain aliases removed"""
+        for _ in range(6):
+            if isinstance(e, ast.Call) and isinstance(e.func, ast.Name) and e.func.id in ('list', 'tuple', 'set', 'frozenset', 'sorted',
+                                                                                         'reversed', 'iter') and e.args:
+                e = e.args[0]
+                continue
+            if isinstance(e, ast.Name):
+                ds = ps.fl.defs_of(e.id)
+                if len(ds) == 1 and ds[0].kind == 'assign' and isinstance(ds[0].value, ast.Name):
+                    e = ds[0].value
+                    continue
+            break
+        return e
+
     for c in calls:
-        fo = ps.call_loop(c)
-        if fo is not None and same(fo.iter, it):
+        ci = ps.call_iter(c)
+        fo, itc = ci if ci is not None else (None, None)
+        if fo is not None and (same(itc, it) or same(root_name(itc), root_name(it))):
             rec = (c, fo)
+        elif fo is None or not match(f"{ps.task}.children", sched.whole_seq(root_name(ps.ex.expand(itc, ps.cfg.node_of(fo))))):
+            other.append(c)
     if rec is None:
+        if other:
+            o.undecided(ps.f, other[0], other[0], f"a recursive call of the pass is made outside a loop over the collection `{src(it)[:40]}` whose "
+                                                  f"{ps.end_attr}s bound the task: cannot tell whether every dependency is scheduled first")
+            return
         o.refute(ps.f, pt['stmt'], it, f"the dependencies whose {ps.end_attr} is read here are never handed to the recursive pass first")
         return
     c, fo = rec
@@ -136,6 +204,10 @@ def leaf_bound(ctx, o, ps: PassShape, pt):
     attr = 'start' if fwd else 'end'
     stores = [x for x in ps.stores(attr) if x[3]['milestone'] is False and x[3]['leaf'] is True and x[3]['is_none'].get(attr) is True]
     if not stores:
+        vague = [x for x in ps.stores(attr) if x[3]['leaf'] is None and x[3]['milestone'] is not True]
+        if vague:
+            o.undecided(ps.f, vague[0][0], vague[0][0], f"task.{attr} is stored under conditions the rule cannot classify as leaf / summary")
+            return
         o.refute(ps.f, ps.f.node, f'leaf {attr}', f"no store to task.{attr} in the region [not milestone, leaf, {attr} is None]")
         return
     search_name = ctx.prog.func(S['search']).name
@@ -187,6 +259,23 @@ def check_bound_term(ctx, o, ps, pt, st, term, fwd, intermediate=False):
     need = {'prerequisites': False, 'project bound': False}
     if fwd:
         need.update({'clock': False, 'min_start': False})
+    # a bound list built step by step: `bounds = [a, b]`, `if task.min_start is not None: bounds.append(task.min_start)`, max(bounds)
+    grown = []
+    for a in list(args):
+        if isinstance(a, ast.Name) and a.id not in (ps.bound, pt['name'] if pt else None):
+            els = _list_elements(ps, a.id, st)
+            if els is not None:
+                args.remove(a)
+                for e, conds in els:
+                    ex_e = ps.ex.expand(e, ps.cfg.node_containing(e), stop={pt['name']} if pt else None)
+                    if not conds:
+                        args.extend(facts.flatten_lattice(ex_e, lat) or [ex_e])
+                    elif fwd and match(f"{ps.task}.min_start", ex_e) and len(conds) == 1 and (
+                            facts.cond_is(conds[0][0], conds[0][1], f"{ps.task}.min_start is None", want=False) or
+                            facts.cond_is(conds[0][0], conds[0][1], f"{ps.task}.min_start", want=True)):
+                        need['min_start'] = True      # present whenever it is set: same as `min_start or <epoch>`
+                    else:
+                        grown.append(e)               # a conditional extra operand can only tighten the bound
     pe_args = []
     if pt is not None:
         pe_x = ps.ex.expand(pt.get('value', pt['stmt'].value), ps.cfg.node_of(pt['stmt']))
@@ -207,10 +296,46 @@ def check_bound_term(ctx, o, ps, pt, st, term, fwd, intermediate=False):
         elif fwd and _is_epoch_default(a, ps.task):
             need['min_start'] = True
     missing = [k for k, v in need.items() if not v]
-    if missing:
+    opaque = [a for a in args if isinstance(a, (ast.Call, ast.Subscript, ast.Starred, ast.IfExp)) and not _is_now(a)
+              and not facts.comp_parts(a) and not (isinstance(a, ast.Call) and isinstance(a.func, ast.Name) and a.func.id == 'datetime')] + \
+             [a for a in args if isinstance(a, ast.Name) and a.id not in (ps.bound, pt['name'] if pt else None)]
+    if missing and opaque:
+        o.undecided(ps.f, st, term, f"the {'lower' if fwd else 'upper'} bound of the leaf `{src(term)[:100]}` contains `{src(opaque[0])[:40]}`, which the "
+                                    f"rule cannot resolve; not recognised in it: " + ', '.join(missing))
+    elif missing:
         o.refute(ps.f, st, term, f"the {'lower' if fwd else 'upper'} bound of the leaf `{src(term)[:100]}` lacks: " + ', '.join(missing))
     else:
         o.site(ps.f, st, f"{lat}({', '.join(src(a)[:40] for a in args)})")
+
+
+def _list_elements(ps, name, at_stmt):
+    """[(element, conditions)] of local list `name` at at_stmt when it is defined once by a list literal and afterwards only
+    grown by `.append(x)` statements that precede at_stmt; else None"""
+    ds = ps.fl.defs_of(name)
+    if len(ds) != 1 or ds[0].kind != 'assign' or not isinstance(ds[0].value, ast.List) or ds[0].node is None:
+        return None
+    use = ps.cfg.node_of(at_stmt) or ps.cfg.node_containing(at_stmt)
+    if use is None or not ps.cfg.dominates(ds[0].node, use):
+        return None
+    base = ps.cfg.conditions(ds[0].node)
+    out = [(e, []) for e in ds[0].value.elts]
+    for n in walk_no_nested(ps.f.node):
+        if isinstance(n, ast.Name) and n.id == name and isinstance(n.ctx, ast.Load):
+            par = None
+            for x in walk_no_nested(ps.f.node):
+                if isinstance(x, ast.Attribute) and x.value is n:
+                    par = x
+            if par is None:
+                continue        # plain read (the max() itself)
+            call = next((x for x in walk_no_nested(ps.f.node) if isinstance(x, ast.Call) and x.func is par), None)
+            if par.attr != 'append' or call is None or len(call.args) != 1:
+                return None
+            cn = ps.cfg.node_containing(call)
+            if cn is None or ps.cfg.enclosing_fors(cn) or not ps.cfg.can_reach(cn, use) or ps.cfg.can_reach(use, cn):
+                return None
+            conds = [c for c in ps.cfg.conditions(cn) if not any(c[0] is b[0] for b in base)]
+            out.append((call.args[0], conds))
+    return out
 
 
 def _same_pe(ps, pt, stmt) -> bool:
@@ -223,17 +348,19 @@ def handdown(ctx, o, ps: PassShape, pt):
     """children are scheduled with a bound that includes the bound handed to the parent"""
     calls = ps.pass_calls()
     n = 0
+    n_unknown = 0
     for c in calls:
-        fo = ps.call_loop(c)
-        if fo is None:
+        ci = ps.call_iter(c)
+        if ci is None:
             o.undecided(ps.f, c, c, "recursive call outside a `for x in <collection>` loop")
+            n_unknown += 1
             continue
-        it = ps.ex.expand(fo.iter, ps.cfg.node_of(fo))
-        base_it = it
-        m = match("reversed($x)", it) or match("list($x)", it) or match("list(reversed($x))", it)
-        if m:
-            base_it = m['x']
+        fo, itc = ci
+        it = ps.ex.expand(itc, ps.cfg.node_of(fo))
+        base_it = sched.whole_seq(it)
         if not match(f"{ps.task}.children", base_it):
+            if not (isinstance(base_it, ast.Name) or (pt is not None and same(itc, pt.get('iter')))):
+                n_unknown += 1        # a loop over an expression that is neither the children nor the dependency collection
             continue
         n += 1
         if len(c.args) < 2:
@@ -245,11 +372,16 @@ def handdown(ctx, o, ps: PassShape, pt):
         if via_pe or any(isinstance(a, ast.Name) and a.id == ps.bound for a in args) or \
                 any(match(f"self.{ps.S['bound']}", a) for a in args):
             o.site(ps.f, c, f"children bound = {src(c.args[1])}")
+        elif _opaque(args, ps, pt):
+            o.undecided(ps.f, c, c.args[1], f"children are scheduled with bound `{src(b)[:80]}`; `{src(_opaque(args, ps, pt)[0])[:40]}` could not be resolved")
         else:
             o.refute(ps.f, c, c.args[1], f"children are scheduled with bound `{src(b)[:80]}` which does not include the bound of the parent")
         if ps.region(fo)['other'] or ps.region(fo)['milestone'] is not None:
             o.refute(ps.f, fo, fo, "the recursion into the children is conditional: some tasks are never scheduled")
-    if n == 0:
+    if n == 0 and n_unknown:
+        o.undecided(ps.f, ps.f.node, 'children recursion', "no recursion into task.children recognised, but the pass recurses over a "
+                                                          "collection the rule does not understand")
+    elif n == 0:
         o.refute(ps.f, ps.f.node, 'children recursion', "the pass never recurses into task.children")
 
 
@@ -270,9 +402,12 @@ def roots_and_preflight(ctx, o, S, validators):
         vf = prog.func(v)
         cs = [c for c in facts.calls_named(calc, vf.name)]
         good = [c for c in cs if c.args and isinstance(c.args[0], ast.Name) and c.args[0].id == inp
-                and cfg.dominates(cfg.node_containing(c), clone_node) and not cfg.conditions(cfg.node_containing(c))]
+                and cfg.dominates(cfg.node_containing(c), clone_node)]
         if good:
             o.site(calc, good[0], f"{vf.name}({inp}) dominates clone()")
+        elif not cs and any((isinstance(n, ast.Name) and n.id == vf.name) or (isinstance(n, ast.Attribute) and unmangle(n.attr) == vf.name)
+                            for n in walk_no_nested(calc.node)):
+            o.undecided(calc, calc.node, vf.name, f"{vf.name} is referenced in calc but not called directly: cannot tell whether it runs before clone()")
         else:
             o.refute(calc, calc.node, vf.name, f"pre-flight validation {vf.name}({inp}) does not run unconditionally before the schedule is computed")
     passes = [c for c in facts.calls_named(calc, pname)]
@@ -282,6 +417,8 @@ def roots_and_preflight(ctx, o, S, validators):
         b = ex.expand(c.args[1]) if len(c.args) > 1 else None
         if b is not None and match(f"self.{S['bound']}", b):
             o.site(calc, c, f"roots scheduled with bound self.{unmangle(S['bound'])}")
+        elif isinstance(b, ast.Name):
+            o.undecided(calc, c, c, f"root tasks are scheduled with bound `{b.id}`, which could not be resolved")
         else:
             o.refute(calc, c, c, f"root tasks are not scheduled with the project {'start' if S['dir'] == 1 else 'end'} as bound")
         fo = sched.for_loop_of(calc, c)
@@ -290,7 +427,10 @@ def roots_and_preflight(ctx, o, S, validators):
     init = prog.func(S['init'])
     arg = 'start' if S['dir'] == 1 else 'end'
     ok = False
+    exi = Expander(prog, init, ctx.typer)
     for st, tgt, val in facts.attr_stores(init, S['bound']):
+        icn = cfg_of(init).node_of(st)
+        val = exi.expand(val, icn) if icn is not None else val
         if match(f"{arg} if {arg} is not None else datetime.now()", val) or match(f"{arg} or datetime.now()", val) or \
                 match(f"datetime.now() if {arg} is None else {arg}", val) or match(arg, val):
             ok = True
@@ -320,6 +460,8 @@ def milestone_placement(ctx, o, ps: PassShape, pt):
         v = ps.ex.expand(val, ps.cfg.node_of(st), stop={pt['name']})
         if (isinstance(v, ast.Name) and v.id == pt['name'] and _same_pe(ps, pt, st)) or same(v, pt.get('value', pt['stmt'].value)):
             o.site(ps.f, st, f"milestone {attr} = {pt['name']}")
+        elif isinstance(v, ast.Name) and v.id not in (ps.bound, pt['name']):
+            o.undecided(ps.f, st, val, f"milestone {attr} is `{v.id}`, which could not be resolved")
         else:
             o.refute(ps.f, st, val, f"milestone {attr} is `{src(v)[:80]}`, not the {'latest end' if ps.S['dir'] == 1 else 'earliest start'} "
                                      f"among its own and inherited dependencies (or the project bound)")
@@ -374,6 +516,21 @@ def search_monotone(ctx, o, S):
             # d = midnight(d) +/- fraction directly before return is the result expression, not a search step
             if isinstance(v, ast.BinOp) and facts.is_midnight_of(v.left) is not None:
                 continue
+            # d = d + timedelta(days=k): a step written as a plain assignment
+            if isinstance(v, ast.BinOp) and isinstance(v.op, (ast.Add, ast.Sub)) and isinstance(v.left, ast.Name) and v.left.id == dvar \
+                    and facts.day_delta(v.right) is not None:
+                k = facts.day_delta(v.right) * (1 if isinstance(v.op, ast.Add) else -1)
+                if k != d:
+                    o.refute(f, x.stmt, x.stmt, f"search steps by `{src(x.stmt)}`; expected exactly {d:+d} day per iteration")
+                    ok = False
+                else:
+                    n_step += 1
+                    cs = cfg_of(f).conditions(x.node)
+                    if cs and not all(sched.sign_test(t, p) for t, p in cs):
+                        o.refute(f, x.stmt, x.stmt, "the day step is conditional")
+                        ok = False
+                continue
+            v = ex.expand(v, x.node, stop={dvar})
             base = v
             off = 0
             if isinstance(v, ast.BinOp) and isinstance(v.op, (ast.Add, ast.Sub)) and facts.day_delta(v.right) is not None:
@@ -382,7 +539,15 @@ def search_monotone(ctx, o, S):
             m = match(f"{res_p}.get_nearest_availability_date({start_p}, $k)", base)
             k = facts.const_num(m['k']) if m else None
             want_off = 0 if d == 1 else -1
-            if m is None or k != d or off != want_off:
+            others = [y for y in defs if y is not x and y.kind == 'assign' and not (
+                isinstance(y.value, ast.BinOp) and (facts.is_midnight_of(y.value.left) is not None or
+                                                    (isinstance(y.value.left, ast.Name) and y.value.left.id == dvar)))]
+            if m is None and not match(f"$r.get_nearest_availability_date($*a)", base) and not others and \
+                    not any(isinstance(z, ast.Name) and z.id == dvar for z in ast.walk(x.value)):
+                # the one and only start of the search, written in a form the rule does not know
+                o.undecided(f, x.stmt, x.stmt, f"search day `{dvar}` is set to `{src(v)[:70]}`, a form the rule does not recognise")
+                ok = False
+            elif m is None or k != d or off != want_off:
                 o.refute(f, x.stmt, x.stmt, f"search starts at `{src(v)}`; expected resource.get_nearest_availability_date(start, {d})"
                                             + ('' if d == 1 else ' - 1 day'))
                 ok = False
